@@ -29,7 +29,7 @@ func (*prop) ID() string    { return "C06" }
 func (*prop) Level() string { return "exploration" }
 func (*prop) Rule() string {
 	return "seeded synthetic modules of 3 packages (defined structs / scalars / funcs / interfaces / maps / slices, aliases incl. aliases of foreign types, generics, function-local types with fresh and clashing names, type parameters shadowing package types, grouped specs, several files, unexported types) are generated with tags gengo:<g> in {absent, '', true, false, x and look-alikes of false: 0, f, F, False, FALSE, no, off, falsex ...} and sub-tags gengo:<g>:<sub> placed at global (Globals), package-doc and declaration level in all combinations, " +
-		"decl-level tags also as detached comments and as the previous line's trailing comment (both must have no effect); generators named a, ab, a:b, deep, deepcopy (scripted, recording) run together, with and without GenerateAliasType, registering 0-3 Defer callbacks per type. The real Execute runs in the worker; the ordered event log (generator callbacks + verif hook points) is compared with an independent model computed from the source the harness wrote: " +
+		"decl-level tags also as detached comments and as the previous line's trailing comment (both must have no effect); generators named a, ab, a:b, deep, deepcopy (scripted, recording) run together, with and without GenerateAliasType, registering 0-3 Defer callbacks per type and answering about a third of the types with ErrSkip / ErrIgnore / a wrapped ErrSkip (dispatch must go on). The real Execute runs in the worker; the ordered event log (generator callbacks + verif hook points) is compared with an independent model computed from the source the harness wrote: " +
 		"effective tags = declaration over package over global per key; enabled iff exact key present ? value != false : any key with prefix gengo:<g>: ; expected multiset of calls = one GenerateType per enabled package-scope defined type, one GenerateAliasType per enabled alias when implemented - observed multiset must be equal, every call must concern a package-scope type of the package being processed; every deferred callback runs exactly once, after the last GenerateType of its (package, generator), before the first write event of that package, sees the output file still unchanged, and its marker is in the final file. " +
 		"Non-trivial = a type whose three tag levels do not all agree for some generator, or a non-dispatchable declaration (local type, type parameter, alias, decoy tag); distinct by hash of (kind, per-generator tag placement vector, decoys)."
 }
@@ -172,6 +172,16 @@ func (p *prop) runModule(c core.Case, w *core.Worker, res *core.Result, r *rand.
 					c.RenderT("// deferred @id\n", snippet.Arg("id", snippet.Block(id)))
 					return nil
 				})
+			}
+			// some types are answered with ErrSkip / ErrIgnore (also wrapped): the remaining types of the package must
+			// still be dispatched and the callbacks registered so far must still run
+			switch h(gn, tn, "sentinel") % 9 {
+			case 0:
+				return gengo.ErrSkip
+			case 1:
+				return gengo.ErrIgnore
+			case 2:
+				return fmt.Errorf("wrapped: %w", gengo.ErrSkip)
 			}
 			return nil
 		}
